@@ -127,7 +127,7 @@ func Run(cfg Config, body func()) Outcome {
 	g.wake <- struct{}{}
 	to := cfg.Timeout
 	if to == 0 {
-		to = 20 * time.Second
+		to = 60 * time.Second // (20 s was hit once by a 30-step episode on a machine with three heavy jobs running: exit 2, not a verdict)
 	}
 	select {
 	case <-s.finished:
